@@ -618,3 +618,8 @@ M("opc3c-extended-arg-any-with", "C08", LL, "            while is_async and insn
 M("opc3c-extended-arg-wrong-place", "C08", LL, "            while is_async and insns[idx + skip_insns - 5].opname == \"EXTENDED_ARG\":", "            while is_async and insns[idx + skip_insns - 4].opname == \"EXTENDED_ARG\":", ["OPC-3c", "OPC-3b"], accept_analysis_error=True)
 M("opc3c-cleanup-throw-not-skipped", "C08", LL, "                    and insns[idx + skip_insns].opname == \"CLEANUP_THROW\"", "                    and insns[idx + skip_insns].opname == \"CLEANUP_THROW_\"", ["OPC-3c", "OPC-3b", "VER-1"], accept_analysis_error=True)
 
+# ---------------------------------------------------------------- SNAP-8
+M("snap8-no-upper-bound", "C07", "_lowlevel_cpython_311.py", "                assert stack_start_offset <= stack_top_offset <= end_offset\n", "                assert stack_start_offset <= stack_top_offset\n", "SNAP-8")
+M("snap8-bound-deleted", "C07", "_lowlevel_cpython_311.py", "                assert stack_start_offset <= stack_top_offset <= end_offset\n", "                pass\n", "SNAP-8")
+T("snap8-twin-split-bound", "C07", "_lowlevel_cpython_311.py", "                assert stack_start_offset <= stack_top_offset <= end_offset\n", "                assert stack_start_offset <= stack_top_offset\n                assert end_offset >= stack_top_offset\n")
+
